@@ -220,6 +220,28 @@ def run_case(case, ctx):
         frontier = new
     ctx.tag("paths", npaths)
     ctx.event(shape=[case["ni"], case["nc"], case["nt"]], names=case["names"], cells=case["cells"], paths_run=npaths)
+    # a multi-index panel that was cut out of a bigger one (rows selected by instance and by time point): pandas keeps the labels of the
+    # bigger panel as unused index levels; the conversions must go by the rows that are there
+    try:
+        big = np.concatenate([arr[:1] * 0 - 1.0, arr, arr[-1:] * 0 - 2.0], axis=0)                  # one extra instance before and after
+        big = np.concatenate([big, big[:, :, :1] * 0 - 3.0], axis=2)                                 # one extra time point at the end
+        big_mi = D.from_3d_numpy_to_multi_index(big, instance_index="case", time_index="tp", column_names=_names(case["names"], arr.shape[1]))
+        inst = big_mi.index.get_level_values(0)
+        tp = big_mi.index.get_level_values(1)
+        cut = big_mi[(inst >= 1) & (inst <= arr.shape[0]) & (tp < arr.shape[2])]
+        for (a, b), f in conv.items():
+            if a != "mi" or b == "long":
+                continue
+            try:
+                got, _ = _decode(b, f(cut, _names(case["names"], arr.shape[1])))
+                same = got.shape == arr.shape and np.array_equal(got, arr)
+            except Exception as e:  # noqa
+                same, got = False, repr(e)[:120]
+            ctx.check("path.values", same, "convert:values-differ:mi-cut-from-a-bigger-panel->%s" % b, "converting a multi-index panel that was selected from a bigger one gives other values / fails",
+                      result=got if isinstance(got, str) else list(got.shape), expected_shape=list(arr.shape))
+        ctx.tag("mi-cut-from-bigger-panel")
+    except Exception as e:  # noqa
+        ctx.tag("mi-cut-construction-failed:" + type(e).__name__)
     # mixed frame: one nested column, one primitive column
     mixed = df.copy()
     mixed["flat"] = np.arange(len(df), dtype=float)
